@@ -679,6 +679,16 @@ fn mutate(tok: &str, how: &str) -> Option<Vec<u8>> {
             v[bit / 8] ^= 1 << (bit % 8);
             v
         }
+        "flip2" => {
+            let (a, c): (usize, usize) = (parts[1].parse().ok()?, parts[2].parse().ok()?);
+            let mut v = b.to_vec();
+            if a / 8 >= v.len() || c / 8 >= v.len() {
+                return None;
+            }
+            v[a / 8] ^= 1 << (a % 8);
+            v[c / 8] ^= 1 << (c % 8);
+            v
+        }
         "nopad" => tok.trim_end_matches('=').as_bytes().to_vec(),
         "addpad" => format!("{tok}=").into_bytes(),
         "urlsafe" => tok.replace('+', "-").replace('/', "_").into_bytes(),
@@ -925,7 +935,7 @@ impl<'a> Runner<'a> {
         }
     }
 
-    fn exec_req(&mut self, op: &str, w: &[&str]) {
+    fn exec_req(&mut self, _op: &str, w: &[&str]) {
         self.nreq += 1;
         let idx: usize = w[1].parse().expect("row index");
         let segs = kv(w, "segs").unwrap_or("-");
@@ -1182,7 +1192,11 @@ fn probe_row(rows: &[Row]) -> &Row {
 }
 
 fn probe_op(rows: &[Row], tr: &str, auth: &str) -> String {
-    format!("req {} GET segs=api/v1/cas/ca1 tr={tr} auth={auth}", probe_row(rows).idx)
+    probe_ca(rows, "ca1", tr, auth)
+}
+
+fn probe_ca(rows: &[Row], ca: &str, tr: &str, auth: &str) -> String {
+    format!("req {} GET segs=api/v1/cas/{ca} tr={tr} auth={auth}", probe_row(rows).idx)
 }
 
 fn gen_plans(seed: u64, tier: &str, rows: &[Row], peer: &str) -> (Vec<(CaseCfg, bool)>, Vec<Plan>) {
@@ -1194,7 +1208,7 @@ fn gen_plans(seed: u64, tier: &str, rows: &[Row], peer: &str) -> (Vec<(CaseCfg, 
 
     // ---- roles
     let mut roles: Vec<RoleDef> = Vec::new();
-    let n_random = if thorough { 64 } else { 7 };
+    let n_random = if thorough { 150 } else { 7 };
     for i in 0..n_random {
         roles.push(random_role(&mut rng, &format!("r{i}"), &perms));
     }
@@ -1395,35 +1409,92 @@ fn gen_plans(seed: u64, tier: &str, rows: &[Row], peer: &str) -> (Vec<(CaseCfg, 
             // whoever got a token: what may it do?
             ops.push(probe_op(rows, tr, &format!("bearer:T{}", k + 1)));
         }
+        // seeded variants of configured names and passwords (thorough)
+        if thorough {
+            let bases: Vec<(String, String)> = c.users.iter().map(|u| (u.name.clone(), u.hpw.clone())).collect();
+            let wide = |s: &str| -> String {
+                s.chars()
+                    .enumerate()
+                    .map(|(i, ch)| if i == 0 && ch.is_ascii_alphanumeric() { char::from_u32(ch as u32 + 0xFEE0).unwrap_or(ch) } else { ch })
+                    .collect()
+            };
+            let mut fuzz: Vec<(String, String)> = Vec::new();
+            for k in 0..160u64 {
+                let (bn, bp) = rng.pick(&bases).clone();
+                let other_pw = rng.pick(&bases).1.clone();
+                let name = match rng.below(9) {
+                    0 => bn.clone(),
+                    1 => bn.to_uppercase(),
+                    2 => bn.to_lowercase(),
+                    3 => format!(" {bn}"),
+                    4 => format!("{bn}\u{a0}"),
+                    5 => wide(bn.trim()),
+                    6 => norm(&bn),
+                    7 => format!("\t{} ", norm(&bn)),
+                    _ => bn.trim().to_string(),
+                };
+                let pw = match rng.below(6) {
+                    0 | 1 => bp.clone(),
+                    2 => format!(" {bp}\n"),
+                    3 => other_pw,
+                    4 => wide(&bp),
+                    _ => format!("{bp}{k}"),
+                };
+                fuzz.push((name, pw));
+            }
+            let mut extra_norms: BTreeMap<String, String> = BTreeMap::new();
+            for (n, p) in &fuzz {
+                for s in [n, p] {
+                    if norm(s) != *s && !norms.contains_key(s) {
+                        extra_norms.insert(s.clone(), norm(s));
+                    }
+                }
+            }
+            for (a, b) in &extra_norms {
+                ops.push(format!("norm {} {}", hexs(a), hexs(b)));
+            }
+            for (k, (n, p)) in fuzz.iter().enumerate() {
+                let tr = if k % 3 == 0 { "unix" } else { "tcp" };
+                ops.push(format!("req {} POST segs=auth/login tr={tr} auth=basic:{}:{} tok=T{}", login.idx, hexs(n), hexs(p), 1000 + k));
+                ops.push(probe_op(rows, tr, &format!("bearer:T{}", 1000 + k)));
+            }
+        }
         // no header / not Basic / malformed Basic
         ops.push(format!("req {} POST segs=auth/login tr=tcp auth=none tok=T900", login.idx));
         ops.push(format!("req {} POST segs=auth/login tr=tcp auth=bearer:txt:{} tok=T901", login.idx, hexs(&admin)));
         plans.push(Plan { inst: 0, id: format!("s{seed}-c20-logins"), cfg: c, ops });
     }
     // token mutations
-    for (inst, cfgx, trs) in [(0usize, &cfg0, vec!["tcp", "unix"]), (1usize, &cfg1, vec!["unix"])] {
-        let role = if inst == 0 { "readonly".to_string() } else { other_role.clone() };
-        let c = if inst == 0 { sub(cfgx, &["readonly"]) } else { cfgx.clone() };
+    // (instance, role of the token's user, CA of the probe route that role may read)
+    let mut variants: Vec<(usize, String, &str)> = vec![(0, "readonly".into(), "ca1"), (1, other_role.clone(), "ca3")];
+    if thorough {
+        variants.push((0, "admin".into(), "ca2"));
+        variants.push((0, "override".into(), "ca3"));
+        variants.push((0, "noCaAdmin".into(), "ca1"));
+    }
+    for (inst, role, pca) in variants {
+        let (cfgx, trs) = if inst == 0 { (&cfg0, vec!["tcp", "unix"]) } else { (&cfg1, vec!["unix"]) };
+        let c = if inst == 0 { sub(cfgx, &[role.as_str()]) } else { cfgx.clone() };
         let u = users.iter().find(|u| u.role == role).unwrap();
         let mut ops = vec![login_op(rows, u, "T1", trs[0]), login_op(rows, u, "T2", trs[0])];
         ops.push(format!("foreign F1 key=77 user={} role={}", hexs(&u.name), role));
         // a real token is ~170 characters; lengths and bit positions beyond it are skipped at run time
         let maxlen = 200usize;
         for tr in &trs {
-            ops.push(probe_op(rows, tr, "bearer:T1"));
-            ops.push(probe_op(rows, tr, "bearerpad:T1"));
-            ops.push(probe_op(rows, tr, "bearer:T2"));
-            ops.push(probe_op(rows, tr, "bearer:F1"));
-            ops.push(probe_op(rows, tr, "bearer:nc:T1"));
+            ops.push(probe_ca(rows, pca, tr, "bearer:T1"));
+            ops.push(probe_ca(rows, pca, tr, "bearerpad:T1"));
+            ops.push(probe_ca(rows, pca, tr, "bearer:T2"));
+            ops.push(probe_ca(rows, pca, tr, "bearer:F1"));
+            ops.push(probe_ca(rows, pca, tr, "bearer:nc:T1"));
             for how in ["nopad", "addpad", "urlsafe", "swapcase", "dup", "prefix", "suffix", "space"] {
-                ops.push(probe_op(rows, tr, &format!("bearer:dmg:T1:{how}")));
+                ops.push(probe_ca(rows, pca, tr, &format!("bearer:dmg:T1:{how}")));
             }
             for kind in ["lower", "noscheme", "token", "nonascii"] {
-                ops.push(probe_op(rows, tr, &format!("unread:{kind}:T1")));
+                ops.push(probe_ca(rows, pca, tr, &format!("unread:{kind}:T1")));
             }
             // every truncation length
             for len in 0..maxlen {
-                ops.push(probe_op(rows, tr, &format!("bearer:dmg:T1:trunc:{len}")));
+                ops.push(probe_ca(rows, pca, tr, &format!("bearer:dmg:T1:trunc:{len}")));
             }
             // single-bit flips of the text: all of them (thorough) or a seeded sample
             let nbits = maxlen * 8;
@@ -1432,34 +1503,46 @@ fn gen_plans(seed: u64, tier: &str, rows: &[Row], peer: &str) -> (Vec<(CaseCfg, 
                     continue;
                 }
                 if thorough || rng.chance(1, 6) {
-                    ops.push(probe_op(rows, tr, &format!("bearer:dmg:T1:flip:{bit}")));
+                    ops.push(probe_ca(rows, pca, tr, &format!("bearer:dmg:T1:flip:{bit}")));
+                }
+            }
+            if thorough {
+                for _ in 0..400 {
+                    let (a, b) = (rng.below(nbits as u64), rng.below(nbits as u64));
+                    if a % 8 != 7 && b % 8 != 7 && a != b {
+                        ops.push(probe_ca(rows, pca, tr, &format!("bearer:dmg:T1:flip2:{a}:{b}")));
+                    }
                 }
             }
             // arbitrary strings
             for s in ["", "A", "AAAA", "====", "Bearer", "null", "e30=", &"A".repeat(4096), "AAAAAAAAAAAAAAAAAAAAAAAAAAAAAAAAAAAAAAAAAAAAAAAAAAAAAAAA"] {
-                ops.push(probe_op(rows, tr, &format!("bearer:txt:{}", hexs(s))));
+                ops.push(probe_ca(rows, pca, tr, &format!("bearer:txt:{}", hexs(s))));
             }
             for _ in 0..(if thorough { 200 } else { 30 }) {
                 let len = rng.range(1, 220) as usize;
                 let s: String = (0..len).map(|_| *rng.pick(b"ABCDEFGHIJKLMNOPQRSTUVWXYZabcdefghijklmnopqrstuvwxyz0123456789+/=-_. ") as char).collect();
-                ops.push(probe_op(rows, tr, &format!("bearer:txt:{}", hexs(s.trim()))));
+                ops.push(probe_ca(rows, pca, tr, &format!("bearer:txt:{}", hexs(s.trim()))));
             }
             // the admin token: verbatim, padded, and not verbatim
             for s in [admin.clone(), admin[..admin.len() - 1].to_string(), format!("{admin}x"), admin.to_uppercase(), admin.to_lowercase(), format!("x{admin}"), admin[..1].to_string()] {
-                ops.push(probe_op(rows, tr, &format!("bearer:txt:{}", hexs(&s))));
+                ops.push(probe_ca(rows, pca, tr, &format!("bearer:txt:{}", hexs(&s))));
             }
-            ops.push(probe_op(rows, tr, &format!("bearerpad:txt:{}", hexs(&admin))));
+            ops.push(probe_ca(rows, pca, tr, &format!("bearerpad:txt:{}", hexs(&admin))));
         }
         // after logout the token is still a genuine token (the property does not say otherwise); a
         // damaged one stays refused
         let logout = rows.iter().find(|r| r.pattern == "/auth/logout" && r.method == "POST").unwrap();
         ops.push(format!("req {} POST segs=auth/logout tr={} auth=bearer:T1", logout.idx, trs[0]));
-        ops.push(probe_op(rows, trs[0], "bearer:T1"));
+        ops.push(probe_ca(rows, pca, trs[0], "bearer:T1"));
         ops.push(format!("req {} POST segs=auth/logout tr={} auth=bearer:dmg:T1:trunc:40", logout.idx, trs[0]));
-        ops.push(probe_op(rows, trs[0], "bearer:dmg:T1:trunc:40"));
+        ops.push(probe_ca(rows, pca, trs[0], "bearer:dmg:T1:trunc:40"));
         // refused everywhere: damaged, foreign and re-encoded tokens on every row
         if inst == 0 {
-            for auth in ["bearer:dmg:T1:flip:100", "bearer:F1", "bearer:nc:T1", "bearer:dmg:T1:trunc:60"] {
+            let mut creds = vec!["bearer:dmg:T1:flip:100", "bearer:F1", "bearer:nc:T1", "bearer:dmg:T1:trunc:60"];
+            if thorough {
+                creds.extend(["bearer:dmg:T1:nopad", "bearer:dmg:T1:swapcase", "bearer:dmg:T1:flip:1100", "bearer:dmg:T1:trunc:170", "unread:nonascii:T1", "bearer:dmg:T2:suffix"]);
+            }
+            for auth in creds {
                 ops.extend(all_rows_ops(rows, if auth.contains("F1") { "unix" } else { "tcp" }, auth, &["ca1"], true, false));
             }
         }
@@ -1472,7 +1555,7 @@ fn gen_plans(seed: u64, tier: &str, rows: &[Row], peer: &str) -> (Vec<(CaseCfg, 
                 }
             }
         }
-        plans.push(Plan { inst, id: format!("s{seed}-c20-mutations-{}", if inst == 0 { "unmapped" } else { "mapped" }), cfg: c, ops });
+        plans.push(Plan { inst, id: format!("s{seed}-c20-mutations-{}-{role}", if inst == 0 { "unmapped" } else { "mapped" }), cfg: c, ops });
     }
     let insts = vec![(cfg0, true), (cfg1, false), (cfg2, false)];
     (insts, plans)
